@@ -1,9 +1,9 @@
 SPECIFICATION MSpec
 CONSTANTS
- DescPlatStrict = FALSE
+ DescPlatStrict = TRUE
  PlatLookupStrict = TRUE
  ReadFaults = TRUE
- EqualAnnStrict = FALSE
+ EqualAnnStrict = TRUE
  PutFirst = FALSE
  DedupByDigest = FALSE
  DeleteKeepsOne = FALSE
